@@ -52,6 +52,8 @@ def programs(rng, n):
 
 def region(text, m):
     lines = text.split("\n")
+    if not (1 <= m.start_line <= m.end_line <= len(lines)):
+        return None                     # not a region of this text at all
     if m.start_line == m.end_line:
         return lines[m.start_line - 1][m.start_column - 1:m.end_column]
     out = [lines[m.start_line - 1][m.start_column - 1:]] + lines[m.start_line:m.end_line - 1] + [lines[m.end_line - 1][:m.end_column]]
@@ -91,6 +93,10 @@ def readback(chk):
             if not (1 <= m.start_line <= m.end_line and m.start_column >= 1 and m.end_column >= 1) and bad["bounds"] is None:
                 bad["bounds"] = (text, repr(m))
             reg = region(text, m)
+            if reg is None:
+                if bad["bounds"] is None:
+                    bad["bounds"] = (text, repr(m)[:80], "region outside the text", (m.start_line, m.start_column, m.end_line, m.end_column))
+                return
             pos = lambda x: (x.start_line, x.start_column, x.end_line, x.end_column)
             synthesized = parent is not None and pos(m) == pos(parent)
             # models the reader synthesises (the head symbol of ' ` ~ #* #** #^ sugar, the parts of a dotted identifier)
@@ -124,11 +130,13 @@ def readback(chk):
         for f in forms:
             walk(f, None)
     chk.extra["models_checked"] = count
-    chk.ob("rtc/positions are 1-based with start <= end", bad["bounds"] is None, "rtc", "bounded", detail=str(bad["bounds"]))
+    chk.ob("rtc/positions are 1-based with start <= end", bad["bounds"] is None, "rtc", "bounded", detail=str(bad["bounds"]),
+           replay={"confirmed": bad["bounds"] is not None, "input": bad["bounds"]})
     chk.ob("rtc/the region [start, end] of every model re-reads to exactly one form equal to it (types and attributes included)",
            bad["reread"] is None, "rtc", "bounded", detail=str(bad["reread"]),
            replay={"confirmed": bad["reread"] is not None, "input": bad["reread"]})
-    chk.ob("rtc/every child's region lies within its parent's region", bad["contain"] is None, "rtc", "bounded", detail=str(bad["contain"]))
+    chk.ob("rtc/every child's region lies within its parent's region", bad["contain"] is None, "rtc", "bounded", detail=str(bad["contain"]),
+           replay={"confirmed": bad["contain"] is not None, "input": bad["contain"]})
     chk.ob("rtc/children of bracketed sequences appear in source order without overlap", bad["order"] is None, "rtc", "bounded",
            detail=str(bad["order"]))
 
@@ -146,6 +154,18 @@ def capture_contract(chk):
     out = r.fill_pos(sym, (5, 2))
     chk.ob("contract/fill_pos sets start from its argument and end from the cursor", (out.start_line, out.start_column, out.end_line, out.end_column) == (5, 2, 7, 9),
            "structural", "proved")
+    # freshness: position attributes are filled in only while unset (Object.replace), so a model object that two forms
+    # shared would keep the first form's region
+    shared = []
+    for sugar in ("'", "`", "~", "~@", "#* ", "#** ", "#^ t "):
+        a, b = list(hy.read_many(f"{sugar}x\n\n   {sugar}y"))
+        ids_a = {id(n) for n in a} | {id(a)}
+        if any(id(n) in ids_a for n in b) or a[0] is b[0]:
+            shared.append(sugar)
+        if (b[0].start_line, b[0].start_column) != (b.start_line, b.start_column):
+            shared.append(sugar + " (head position)")
+    chk.ob("contract/each sugared form gets fresh model objects: the synthesised head carries the region of its own form", not shared,
+           "structural", "proved", detail=str(shared))
     # frame: _pos is assigned only in _set_source and getc
     import ast
     import glob
